@@ -182,6 +182,9 @@ def _plan(prop, mod, tier, seed, only_clause, jobs):
             if tier == "quick":
                 # clause budgets were sized for ~5 s quick runs; the quick tier may take about half a minute
                 n = int(n * float(os.environ.get("VF_QUICK_SCALE", getattr(mod, "META", {}).get("quick_scale", 4))))
+            else:
+                # the thorough tier may take several minutes per property on 16 cores
+                n = int(n * float(os.environ.get("VF_THOROUGH_SCALE", getattr(mod, "META", {}).get("thorough_scale", 1))))
             if n <= 0:
                 continue
             nsh = max(1, min(c.max_shards, jobs, n // max(1, c.min_per_shard)))
